@@ -574,7 +574,24 @@ package bkl
 
 //@ func Parser.MergeDocument(p, patch) (err)
 //@   property C02
-//@   modifies Parser.docs, Document.Data, Document.Parents
+//@   modifies Parser.docs, Document.Data, Document.Parents, Document.ID
+//@   uses rmemApp, rdistinctApp, rappNil, rsnocApp, anyRejectedApp
+//@   requires (rdistinct (Parser.docs p)) (not (rmem patch (Parser.docs p))) (not (= patch 0))
+//@   requires (forall ((r Int)) (=> (rmem r (Parser.docs p)) (and (not (= r 0)) (< r allocTop))))
+//@   ensures (=> (not (and ((_ is VMap) (old (Document.Data patch))) (not (= (select (mc (old (Document.Data patch))) "$match") VAbsent))))          [C02]
+//@              (let ((ts (parentsOf (old (heap Parser.docs)) (old (heap Document.ID)) (old (heap Document.Parents)) p patch))
+//@                    (body (old (Document.Data patch))))
+//@                (and (=> (= ts RNil) (and (not (isErr err)) (= (Parser.docs p) (rapp (old (Parser.docs p)) (RCons patch RNil)))
+//@                                          (= (heap Document.Data) (old (heap Document.Data)))))
+//@                     (=> (not (= ts RNil))
+//@                         (and (= (heap Parser.docs) (old (heap Parser.docs)))
+//@                              (=> (not (isErr err)) (appliedTo (old (heap Document.Data)) (heap Document.Data) ts body))
+//@                              (=> (isErr err) (anyRejected (old (heap Document.Data)) ts body)))))))
+//@   loop 1
+//@     invariant (= (heap Parser.docs) (old (heap Parser.docs)))
+//@     invariant (= matched (not (= done RNil)))
+//@     invariant (appliedTo (old (heap Document.Data)) (heap Document.Data) done (old (Document.Data patch)))
+//@     invariant (not (anyRejected (old (heap Document.Data)) done (old (Document.Data patch))))
 //@ func Parser.mergePatchMatch(p, patch) (matched, err)
 //@   property C02
 //@   modifies Parser.docs, Document.Data, Document.Parents, Document.ID
@@ -583,7 +600,8 @@ package bkl
 //@   requires (forall ((r Int)) (=> (rmem r (Parser.docs p)) (and (not (= r 0)) (< r allocTop))))
 //@   ensures (= matched (and ((_ is VMap) (old (Document.Data patch))) (not (= (select (mc (old (Document.Data patch))) "$match") VAbsent))))          [C02]
 //@   ensures (=> (not matched) (and (not (isErr err)) (= (heap Document.Data) (old (heap Document.Data)))                                          [C02]
-//@                                  (= (heap Parser.docs) (old (heap Parser.docs))) (= (heap Document.Parents) (old (heap Document.Parents)))))
+//@                                  (= (heap Parser.docs) (old (heap Parser.docs))) (= (heap Document.Parents) (old (heap Document.Parents)))
+//@                                  (= (heap Document.ID) (old (heap Document.ID)))))
 //@   ensures (=> (and matched (= (select (mc (old (Document.Data patch))) "$match") VNil))                                                         [C02]
 //@              (let ((body (VMap (store (mc (old (Document.Data patch))) "$match" VAbsent))))
 //@                (and (not (isErr err))
